@@ -3374,7 +3374,7 @@ class QuicConnection:
 
         # the reason phrase is only informative: truncate it (at a character
         # boundary) so that the frame always fits into the packet
-        reason_bytes = reason_phrase.encode("utf8")
+        reason_bytes = reason_phrase.encode("utf8", errors="replace")
         max_reason_length = max(
             0,
             builder.remaining_buffer_space
